@@ -169,7 +169,10 @@ def api_case(draw):
     c = draw(explicit_case())
     if c.get("media_type") == "text/plain" and draw(st.booleans()):
         c["body"] = draw(st.sampled_from(["first line\nsecond line\n  third line", "a\n\tb", "x\n'quoted'\n", "tab\there\nend"]))
-    via = draw(st.sampled_from(["none", "call_headers", "session_headers", "auth", "call_and_validate_headers"]))
+    via = draw(st.sampled_from(["none", "call_headers", "session_headers", "auth", "call_and_validate_headers", "session_cookies", "header_cookie"]))
+    if via in ("session_cookies", "header_cookie"):
+        # cookies that reach the request from outside the case (a login cookie of the session, a Cookie header), next to the case's own
+        c.setdefault("cookies", {"ck": "own"})
     return {"case": c, "via": via, "extra": draw(ASCII_HDR.filter(lambda v: v != "")) if via != "none" else None}
 
 
@@ -237,6 +240,12 @@ def check_api(ctx: Ctx, inp) -> None:
                 response = case.call(session=session)
             elif via == "call_headers":
                 response = case.call(headers={"X-Extra": extra})
+            elif via == "session_cookies":
+                session = requests.Session()
+                session.cookies.set("tracking", "xyz123")
+                response = case.call(session=session)
+            elif via == "header_cookie":
+                response = case.call(headers={"Cookie": "tracking=xyz123"})
             elif via == "auth":
                 response = case.call(auth=("user", extra))
             else:
